@@ -364,6 +364,12 @@ class DecimalDomain:
         if n in ("index", "index_mut") and len(a) == 2 and isinstance(a[0], Tup):
             if isinstance(a[1], int) and 0 <= a[1] < len(a[0].items):
                 return a[0].items[a[1]]
+            if isinstance(a[1], Adt) and "ops::range::Range" in a[1].name.replace("ops::Range", "ops::range::Range") and all(isinstance(x, int) for x in a[1].fields):
+                # a sub-table by a literal range (`&small[..10]`)
+                L, nm, f = len(a[0].items), a[1].name.split("::")[-1], list(a[1].fields)
+                lo, hi = {"Range": (f + [None, None])[:2], "RangeTo": [0, (f + [None])[0]], "RangeFrom": [(f + [None])[0], L], "RangeFull": [0, L]}.get(nm, [None, None])
+                if isinstance(lo, int) and isinstance(hi, int) and 0 <= lo <= hi <= L:
+                    return Tup(list(a[0].items[lo:hi]))
             if a[1] == ("digit",):
                 ok = len(a[0].items) >= 10 and all(isinstance(x, Mult) and x.k == i for i, x in enumerate(a[0].items[:10]))
                 if not ok:
